@@ -286,6 +286,15 @@ class Gen:
             (ins if ok else outs).append(fmt_dec(c))
         return ins, outs
 
+    @staticmethod
+    def outside(r, lit):
+        d = Decimal(lit)
+        if r["l"] is not None and (d < Decimal(r["l"]) or (d == Decimal(r["l"]) and not r["li"])):
+            return True
+        if r["r"] is not None and (d > Decimal(r["r"]) or (d == Decimal(r["r"]) and not r["ri"])):
+            return True
+        return False
+
     def gen_opts(self, kind, siblings, mode, force=None):
         """field options for a scalar (possibly pointer) field of the given kind"""
         rng = self.rng
@@ -408,6 +417,18 @@ class Gen:
                 return rng.choice(good)
             return rng.choice(opts or ins or outs or ["1"])
         if intent == "range":
+            if r and rng.random() < 0.3:
+                # far outside: survives any narrowing conversion only by accident
+                far = ["4294967297", "2147483648", "65537", "300", "1000000000000"]
+                if kind in BITS:
+                    far = [x for x in far if int(x) < 2 ** (BITS[kind] - (0 if kind in UINT_KINDS else 1))]
+                    if kind not in UINT_KINDS:
+                        far += ["-" + x for x in far]
+                else:
+                    far += ["-4294967297", "1e30", "-1e30", "123456.5"]
+                far = [x for x in far if x not in ins and self.outside(r, x)]
+                if far:
+                    return rng.choice(far)
             return rng.choice(outs or ["1000"])
         if intent == "option":
             cand = [x for x in ins if x not in opts] or ["77"]
@@ -550,6 +571,10 @@ class Gen:
         lit = self.num_literal(k, None, rng.choice(["valid", "valid", "valid", "overflow", "syntax"]))
         if mode in STRING_MODES:
             return ds(lit)
+        if mode == "key" and rng.random() < 0.25:
+            nk = k if rng.random() < 0.8 else rng.choice([x for x in KINDS if is_num(x)])
+            if self.native_ok(nk, lit):
+                return {"g": [nk, lit]}
         return dn(lit if self.json_ok(lit) else "1")
 
     def field_value(self, f, mode, intent):
@@ -764,6 +789,54 @@ def systematic(rng):
                                 docs.append(dobj(pairs))
                         for d in docs:
                             cases.append(finish({"mode": mode, "type": St(*fields), "doc": d, "intent": "systematic"}))
+    # every integer kind at and just beyond its limits, through each conversion path
+    for kind in INT_KINDS + UINT_KINDS:
+        b = BITS[kind]
+        lims = [2 ** b - 1, 2 ** b, 0, -1] if kind in UINT_KINDS else [2 ** (b - 1) - 1, 2 ** (b - 1), -2 ** (b - 1), -2 ** (b - 1) - 1]
+        for lim in lims:
+            lit = str(lim)
+            cases.append(finish({"mode": "json", "type": St(F("a", P(kind))), "doc": dobj([("a", dn(lit))]), "intent": "limits"}))
+            cases.append(finish({"mode": "path", "type": St(F("a", Ptr(P(kind)), O(range=R("[:]".replace(":", "-1e30:1e30"))))),
+                                 "doc": dobj([("a", ds(lit))]), "intent": "limits"}))
+            cases.append(finish({"mode": "json", "type": St(F("a", Sl(P(kind))), F("m", Mp(P(kind)))),
+                                 "doc": dobj([("a", {"a": [dn(lit)]}), ("m", dobj([("k", dn(lit))]))]), "intent": "limits"}))
+            cases.append(finish({"mode": "json", "type": St(F("a", P(kind), O(str=True))), "doc": dobj([("a", ds(lit))]), "intent": "limits"}))
+            if kind in UINT_KINDS or lim >= 0:
+                cases.append(finish({"mode": "json", "type": St(F("a", P(kind), O(**{"def": lit}))), "doc": dobj([]), "intent": "limits"}))
+    for lit in ("3.4e38", "3.5e38", "-3.5e38", "1e39", "1.7e308", "1.8e308", "1e400", "-1e400", "1e-3"):
+        for kind in FLOAT_KINDS:
+            cases.append(finish({"mode": "json", "type": St(F("a", P(kind))), "doc": dobj([("a", dn(lit))]), "intent": "limits"}))
+            cases.append(finish({"mode": "form", "type": St(F("a", P(kind), O(range=R("[-1e39:1e39]")))),
+                                 "doc": dobj([("a", {"a": [ds(lit)]})]), "intent": "limits"}))
+    # far outside the range, yet congruent to an inside value modulo 2^8 / 2^16 / 2^32
+    for kind in INT_KINDS + UINT_KINDS + FLOAT_KINDS:
+        for lit in ("257", "65537", "4294967297", "-4294967295", "-65535"):
+            if kind in BITS:
+                v, b = int(lit), BITS[kind]
+                if not ((0 <= v < 2 ** b) if kind in UINT_KINDS else (-2 ** (b - 1) <= v < 2 ** (b - 1))):
+                    continue
+            rg = O(range=R("[0:10]"))
+            cases.append(finish({"mode": "json", "type": St(F("a", P(kind), copy.deepcopy(rg))), "doc": dobj([("a", dn(lit))]), "intent": "alias"}))
+            cases.append(finish({"mode": "path", "type": St(F("a", P(kind), copy.deepcopy(rg))), "doc": dobj([("a", ds(lit))]), "intent": "alias"}))
+            cases.append(finish({"mode": "json", "type": St(F("a", Ptr(P(kind)), O(range=R("[0:10]"), str=True))),
+                                 "doc": dobj([("a", ds(lit))]), "intent": "alias"}))
+            cases.append(finish({"mode": "key", "type": St(F("a", P(kind), copy.deepcopy(rg))),
+                                 "doc": dobj([("a", {"g": [kind, lit]})]), "intent": "alias"}))
+    # an absent struct field: reported iff one of its own fields has to be supplied
+    i = P("int")
+    inner = [
+        [F("x", i)], [F("x", i, O(opt=True))], [F("x", i, O(**{"def": "3"}))], [F("x", Mp(i))], [F("x", Mp(i), O(opt=True))],
+        [F("x", Sl(i))], [F("x", Ptr(i))], [F("x", St(F("y", i, O(opt=True))))], [F("x", Ptr(St(F("y", i, O(opt=True)))))],
+        [F("x", St(F("y", i)))], [F("x", i, O(opt=True, dep="z")), F("z", i, O(opt=True))],
+        [F("x", i, O(opt=True, dep="z", neg=True)), F("z", i, O(opt=True))], [F("x", i, O(range=R("[1:2]")))],
+        [F("x", i, O(opt=True)), F("z", Mp(i))],
+    ]
+    for fs in inner:
+        for outer_opt in (None, O(opt=True)):
+            for wrap in (lambda t: t, Ptr):
+                for doc in (dobj([]), dobj([("s", dobj([]))]), dobj([("s", NULL)])):
+                    cases.append(finish({"mode": "json", "type": St(F("s", wrap(St(*copy.deepcopy(fs))), copy.deepcopy(outer_opt))),
+                                         "doc": doc, "intent": "nested-absent"}))
     return cases
 
 
